@@ -16,6 +16,15 @@ esac
 OUT="/dev/shm/molli-mut-out-$$"; mkdir -p "$OUT"
 VERIF_REPO="$W" VERIF_OUT_DIR="$OUT" /verif/check "$ID" --tier "$TIER"
 RC=$?
+if [ -n "${REPLAY_CHECK:-}" ]; then
+  # every replay file written must reproduce (exit 1, same signature and digest) on the changed tree, in a fresh process
+  for f in "$OUT"/replays/"$ID"/*.json; do
+    [ -f "$f" ] || continue
+    VERIF_REPO="$W" VERIF_OUT_DIR="$OUT" /verif/check replay "$f" >/dev/null 2>&1; r=$?
+    echo "replay $(basename "$f") on the changed tree: exit $r (want 1)"
+    [ $r -eq 1 ] || RC=4
+  done
+fi
 if [ -n "${KEEP_OUT:-}" ]; then echo "outputs kept in $OUT"; else rm -rf "$OUT"; fi
 git -C /repo worktree remove --force "$W"
 git -C /repo worktree prune
